@@ -36,6 +36,9 @@ static const char* scripts[][3] = {
     {"WR", "RW", ""},    // 5
     {"W", "r", "w"},     // 6
     {"RR", "W", ""},     // 7
+    {"y", "W", "R"},     // 8: a reader that yields inside its critical section (third party acts while it holds)
+    {"y", "R", "W"},     // 9
+    {"z", "R", "W"},     // 10: a writer that yields inside its critical section
 };
 
 static void* body(void* p) {
@@ -48,6 +51,19 @@ static void* body(void* p) {
       (void)v;
       rd_rel();
       fiber_rwlock_rdunlock(&L);
+    } else if (*s == 'y') {
+      fiber_rwlock_rdlock(&L);
+      rd_acq(id, 0);
+      fiber_yield();
+      rd_rel();
+      fiber_rwlock_rdunlock(&L);
+    } else if (*s == 'z') {
+      fiber_rwlock_wrlock(&L);
+      wr_acq(id, 0);
+      data = data + 1;
+      fiber_yield();
+      wr_rel();
+      fiber_rwlock_wrunlock(&L);
     } else if (*s == 'W') {
       fiber_rwlock_wrlock(&L);
       wr_acq(id, 0);
